@@ -21,9 +21,28 @@ static const char *kCat = "int";
 #elif VF_CAT == 1
 typedef TR E;
 static const char *kCat = "TR";
-#else
+#elif VF_CAT == 2
 typedef NTR E;
 static const char *kCat = "NTR";
+#else
+// element whose move operations are not noexcept (they never actually throw): swap2 is then not noexcept either and an
+// exception raised half-way propagates to the caller instead of terminating the program
+struct TM {
+  NTR h;
+  TM() : h() {}
+  explicit TM(int v) : h(v) {}
+  TM(const TM &o) : h(o.h) {}
+  TM(TM &&o) noexcept(false) : h(std::move(o.h)) {}
+  TM &operator=(const TM &o) { h = o.h; return *this; }
+  TM &operator=(TM &&o) noexcept(false) { h = std::move(o.h); return *this; }
+  int val() const { return h.val(); }
+  bool is_null() const { return h.is_null(); }
+  bool magic_ok() const { return h.magic_ok(); }
+  uint32_t id() const { return h.id(); }
+  friend bool operator==(const TM &a, const TM &b) { return a.val() == b.val(); }
+};
+typedef TM E;
+static const char *kCat = "ThrowingMoveType";
 #endif
 #ifndef VF_TNAME
 #define VF_TNAME "exh_c13"
@@ -169,7 +188,11 @@ static void pair_case(const char *na, const char *nb) {
             } catch (const std::exception &) {
               threw = true;
             }
-            if (threw) {
+            if (static_cast<long>(a.size()) > static_cast<long>(a.capacity()) || static_cast<long>(b.size()) > static_cast<long>(b.capacity()))
+              violation(P13 | P07, "size() > capacity() after swap2 %s (sizes %ld/%ld, capacities %ld/%ld)", threw ? "threw" : "returned", static_cast<long>(a.size()),
+                        static_cast<long>(b.size()), static_cast<long>(a.capacity()), static_cast<long>(b.capacity()));
+            if (failed()) {
+            } else if (threw) {
               if (can)
                 violation(P13, "swap2 threw although each operand can hold the other's size (%ld, %ld)", sa, sb);
               else if (!values_equal(a, ma) || !values_equal(b, mb))
@@ -180,7 +203,8 @@ static void pair_case(const char *na, const char *nb) {
               if (!failed()) ma.swap(mb);
             }
             if (!failed() && (static_cast<long>(a.size()) > static_cast<long>(a.capacity()) || static_cast<long>(b.size()) > static_cast<long>(b.capacity())))
-              violation(P13, "size() > capacity() after swap2");
+              violation(P13 | P07, "size() > capacity() after swap2 (sizes %ld/%ld, capacities %ld/%ld)", static_cast<long>(a.size()), static_cast<long>(b.size()),
+                        static_cast<long>(a.capacity()), static_cast<long>(b.capacity()));
             if (!failed() && ET<E>::tracked && cells().live != ma.size() + mb.size())
               violation(P13 | P02, "%u element values alive, %zu visible after swap2: %s", cells().live, ma.size() + mb.size(), cells().live > ma.size() + mb.size() ? "leak" : "double destroy");
             if (!failed()) follow_up(a, ma, "left operand");
